@@ -255,8 +255,17 @@ pub fn run_history<U: Uf>(ctx: &mut Ctx, universe: usize, ops: &[Op]) -> (u64, b
         judged += 1;
         match r {
             Ok(bad) => {
+                // one witness per clause and history; a history that has gone wrong is not judged further
+                // (every later answer would repeat the same root cause)
+                let mut seen = std::collections::BTreeSet::new();
+                let any = !bad.is_empty();
                 for (clause, obs) in bad {
-                    ctx.violation(&clause, api, hist(), obs, "partition semantics of the unions applied to that instance");
+                    if seen.insert(clause.clone()) {
+                        ctx.violation(&clause, api, hist(), obs, "partition semantics of the unions applied to that instance");
+                    }
+                }
+                if any {
+                    return (judged, false);
                 }
             }
             Err(p) => {
